@@ -164,9 +164,10 @@ class AgreeSystem(System):
             # Sphinx refuses: MyST must raise or return only entries of well-formed lines
             if m is not None:
                 good = _wellformed_only(case)
-                if good is not None and not _subset(m, good):
-                    viol.append(violation("agree", {"clause": "malformed-corrupts", **feat},
-                                          f"Sphinx raises {serr}; MyST returned entries that no well-formed line defines",
+                if good is not None and m != good:
+                    # the load did not fail, so malformed lines were skipped: every well-formed entry must be there, and nothing else
+                    viol.append(violation("agree", {"clause": "malformed-corrupts", "kind": "lost" if _subset(m, good) else "invented", **feat},
+                                          f"Sphinx raises {serr}; MyST loaded the file but its entries {m} are not those of the well-formed lines {good}",
                                           lines=lines, myst=m, wellformed=good))
         # round trip
         if raw is not None and m:
